@@ -133,6 +133,7 @@ class Interp:
         self.f = facts
         self.builtins = builtins or {}
         self.opaque_conversions = False  # `.into()` / `From::from` of an Opaque value is the value itself (conversions are abstracted)
+        self.cmp_hook = None            # callable(l, r): told about every `==` / `!=` evaluated
         self.unknown_fn = None          # callable(interp, def path, path node, args): a function value without a body is applied
         self.display_hook = None        # callable(value) -> text | None: Display of crate types the caller models
         self.max_depth = max_depth
@@ -374,6 +375,8 @@ class Interp:
                 raise Unsupported("comparison on opaque value")
             if (isinstance(l, Sym) or isinstance(r, Sym)) and op not in ("==", "!="):
                 raise Unsupported("ordering of symbolic values")
+            if op in ("==", "!=") and self.cmp_hook is not None:
+                self.cmp_hook(l, r)
             if op == "==":
                 return l == r
             if op == "!=":
@@ -1038,6 +1041,7 @@ def _filter(it, recv, args, depth):
 ITER_BUILTINS = {"chars": _chars, "take": _take, "all": _all, "any": _any,
                  "map": lambda it, r, a, d: [it.apply_closure(a[0], [x], d) for x in list(r)],
                  "filter": _filter,
+                 "zip": lambda it, r, a, d: list(zip(list(r), list(a[0]))),
                  "enumerate": lambda it, r, a, d: [(i, x) for i, x in enumerate(list(r))],
                  "iter": lambda it, r, a, d: list(r), "into_iter": lambda it, r, a, d: list(r),
                  "skip": lambda it, r, a, d: list(r)[a[0]:], "rev": lambda it, r, a, d: list(reversed(list(r))),
